@@ -92,6 +92,16 @@ CHECKS = {
              "Successor correctness over all (position, move) pairs and sequences is NOT decided.",
         design_ref="DESIGN.md section 4, C02",
         note=TB_COMMON + " Relies on C20 (move attributes) and C01 (legal move list). Other sound ways of maintaining rights (move-based instead of board-based) would be reported as unrecognised."),
+    "C17": dict(
+        category="other",
+        technique="static analysis: dominator / must-pass-through analysis of analyze_recursive (history test before table probe, quiescence, generation, recursion), "
+                  "guard extraction of the draw return, key-term agreement, hash-map mutation inventory of the repetition history",
+        text="Decides structural clauses D1-D6: the repetition test precedes every later stage of a node, fires exactly under depth > 0 and a history hit, returns "
+             "the draw constant, uses the same hash term as the table, the root hash is recorded before the first iteration in the history that workers read and "
+             "the artifact returns, the history never shrinks, recursion deepens and the root starts at depth 0. That the search then still finds the alternative "
+             "mating move is game-theoretic and NOT decided.",
+        design_ref="DESIGN.md section 4, C17",
+        note=TB_COMMON + " Relies on C08 (the hash identifies the position)."),
 }
 
 NOT_BUILT_REASON = "check not built yet (see DESIGN.md for the plan)"
